@@ -322,10 +322,14 @@ func (b *BlockList) parseHostFile(file *os.File) error {
 			if strings.HasPrefix(n, "#") {
 				break
 			}
-			canonical := dns.CanonicalName(n)
-			if !b.Exists(canonical) {
-				b.set(canonical)
-			}
+			// Every listed name is loaded, covered by another entry or
+			// not. Skipping a name an earlier line already blocks made
+			// the result depend on line order, and made the persisted
+			// local list reload to less than was saved: a wildcard or
+			// subdomain added beside a broader entry vanished on the
+			// next start, and with it the block once the broader entry
+			// was lifted. set refuses whitelisted names on its own.
+			b.set(dns.CanonicalName(n))
 		}
 	}
 
